@@ -5,7 +5,8 @@ Operation sequences on the real Deque (values inline and file-backed, maxlen in
 rotate/reverse/maxlen changes, extend/extendleft/+=, count/remove under ==,
 the six comparisons against near misses of the contents, copy/pickle/reopen
 handles) against DC.Model.Layers.Deque (result + the whole
-underlying table); acceptor: collections.deque with the same maxlen executes
+underlying table); producers and consumers as real threads with own handles on
+one bounded deque under the deterministic scheduler, linearized on that model; acceptor: collections.deque with the same maxlen executes
 the same operations and must give the same results and contents."""
 import collections
 
@@ -189,6 +190,52 @@ def probe_d17():
         shutil.rmtree(d, ignore_errors=True)
 
 
+def conc_case(args):
+    """producers and consumers on one bounded Deque directory, each with its own handle, under the
+    deterministic scheduler; acceptor: linearizable on DC.Model.Layers.Deque (so every item that
+    maxlen does not discard is popped exactly once, and the contents are what some order gives)"""
+    import os
+    import random
+    import sys
+    sys.path.insert(0, os.path.dirname(os.path.dirname(os.path.abspath(__file__))))
+    import conc
+    seed, tier = args
+    rng = random.Random(seed)
+    maxlen = rng.choice([None, 2, 3, 3])
+    cfg = {'mfs': 8, 'maxlen': maxlen, 'proto': 5}
+    fill = rng.randint(0, 3) if maxlen is None else rng.choice([maxlen, maxlen, maxlen - 1])
+    items = ['p%d' % i for i in range(fill)]
+    preset = [{'m': 'append', 'now': 1000, 'v': x} for x in items]
+    big = b'B' * 20
+
+    def producer(tagc):
+        return [{'m': rng.choice(['append', 'append', 'appendleft']), 'now': 1000, 'v': rng.choice(['%s%d' % (tagc, i), big])}
+                for i in range(rng.randint(1, 2))]
+
+    def consumer():
+        return [{'m': rng.choice(['popleft', 'popleft', 'pop']), 'now': 1000} for _ in range(rng.randint(1, 2))]
+    shape = rng.choice(['pc', 'pc', 'pp', 'cc', 'pcc'])
+    progs = {'pc': [producer('a'), consumer()], 'pp': [producer('a'), producer('b')], 'cc': [consumer(), consumer()],
+             'pcc': [producer('a'), consumer(), consumer()]}[shape]
+    programs = {i: p for i, p in enumerate(progs)}
+    scheds = []
+    bound = 26 if tier == 'quick' else 60
+    n = len(programs)
+    for a in range(n):
+        for b in range(n):
+            if a != b:
+                for k in range(0, bound):
+                    scheds.append([a] * k + [b] * 300 + [a] * 300)
+    for _ in range(6 if tier == 'quick' else 40):
+        scheds.append(rng.choices(range(n), k=rng.randint(5, 80)))
+    out = []
+    for sch in scheds:
+        run = conc.run_concurrent_layer('deque', cfg, preset, programs, sch)
+        why = conc.explain(run, programs, cfg)
+        out.append({'why': why, 'steps': run['steps'], 'sched': sch[:90] if why else None})
+    return {'seed': seed, 'programs': programs, 'maxlen': maxlen, 'preset': items, 'shape': shape, 'results': out}
+
+
 def run(tier, seed, rng, known, replay):
     if replay:
         return base.replay_file(replay, 'C11', ('result', 'state'), acceptor)
@@ -196,6 +243,21 @@ def run(tier, seed, rng, known, replay):
     hists = [gen_history(rng, rng.choice([10, 25, 60])) for _ in range(n)]
     r = base.check_histories('C11', hists, ('result', 'state'), acceptor=acceptor, known=known, runner=layers.layer_chunk)
     dist, distinct = base.op_distribution(hists, r['impl_out'])
+    # concurrent producers / consumers
+    from concurrent.futures import ProcessPoolExecutor
+    n_cases = 16 if tier == 'quick' else 200
+    jobs = [(rng.getrandbits(48), tier) for _ in range(n_cases)]
+    with ProcessPoolExecutor(max_workers=16) as ex:
+        cases = list(ex.map(conc_case, jobs, chunksize=1))
+    conc_runs = 0
+    for c in cases:
+        for x in c['results']:
+            conc_runs += 1
+            if x['why'] and len(r['violations']) < 3:
+                what = 'Deque(maxlen=%r) holding %r: concurrent %s not linearizable: %s' % (c['maxlen'], c['preset'], c['shape'], x['why'])
+                r['violations'].append({'replay': {'property': 'C11', 'kind': 'concurrent-deque', 'case_seed': c['seed'], 'maxlen': c['maxlen'],
+                                                   'preset': c['preset'], 'programs': base.tag(c['programs']), 'schedule': x['sched'],
+                                                   'acceptor': x['why']}, 'found_input': True, 'what': what})
     v = probe_d17()
     if v:
         k = base.match_known(known, {'cfg': {}}, None, v)
@@ -204,10 +266,10 @@ def run(tier, seed, rng, known, replay):
         else:
             r['violations'].append({'replay': {'property': 'C11', 'kind': 'probe', 'acceptor': v}, 'found_input': True, 'what': v})
     return {
-        'evaluations': sum(len(h['ops']) for h in hists), 'distinct_nontrivial': distinct,
+        'evaluations': sum(len(h['ops']) for h in hists) + conc_runs, 'distinct_nontrivial': distinct + n_cases,
         'rule': 'seeded Deque operation sequences (lengths 10-60) over inline and file-backed values, maxlen in {None,0,1,3,5} and changed on the fly, '
-                'indices in [-7,7], rotate in [-9,9]; distinct = distinct (method, result) pairs',
+                'indices in [-7,7], rotate in [-9,9]; scheduled producers/consumers (own handles on one bounded deque, every single-preemption schedule up to the bound + random ones) linearized on the Lean model; distinct = distinct (method, result) pairs',
         'samples': [base.sample(hists[0], r['impl_out'][0])], 'traces': len(hists),
-        'dist': dict(dist, histories=len(hists), divergent=r['divergent']),
+        'dist': dict(dist, histories=len(hists), divergent=r['divergent'], concurrent_cases=n_cases, concurrent_runs=conc_runs),
         'violations': r['violations'], 'known': r['known'],
     }
